@@ -58,3 +58,8 @@ Definition walks_pinned : list (bool * bool * lwalk) :=
 (** R7 of round 3 (`if subfolder.startswith(folder): continue`, the filter inverted) is not a prefix walk: [DOtherSel] *)
 Definition walks_inverted_filter : list (bool * bool * lwalk) :=
   map (fun x : bool * bool * lwalk => let '(eg, fg, w) := x in (eg, fg, if fg then mkWalk (lw_ext w) DOtherSel true else w)) walks_pinned.
+
+(** ---- VPK.extract_all: for every FileInfo of the walk [w] one file <destination>/<listed name> with the bytes read() returns.
+    [names] gives the listed name of a key (_join_file_parts, Fmt/VpkNameJoin.v [join_k] over the translated table), [rd] is read(). *)
+Definition extract_files {A B} (w : lwalk) (names : key -> A) (rd : info -> B) (t : tree) : list (A * B) :=
+  map (fun e => (names (fst e), rd (snd e))) (list_walk w [] [] t).
